@@ -809,8 +809,10 @@ func (ts tasks) responses(rpcLog RPCLogger) jmessages {
 		if rsp.ID == nil {
 			rsp.ID = json.RawMessage("null")
 		}
-		if task.m == nil {
-			// No method was ever assigned for this task, so it was never run.
+		if task.ctx == nil {
+			// No context was ever set up for this task, so it reserved no ID
+			// and was never run. A task that got a context but no method (an
+			// unknown method) did reserve its ID, and must release it.
 			rsp.err = errTaskNotExecuted
 		}
 		if task.err == nil {
